@@ -91,21 +91,21 @@ CHECKS = {
     "C22": (
         "model_checking",
         "exhaustive enumeration of the full product specification x value x call shape x switch against a three-valued reference checker",
-        "Every combination of 21 specifications (types, type sets, example values, sets of example values, column specs, two-column specs), 26 values (scalars; Pandas and Polars frames that conform, have a wrong type, nulls, only nulls, a missing or extra column, no rows; non-frames), the call shapes (positional, keyword, omitted; second declared argument), return specifications and the global switch is executed on a freshly decorated function and compared with a reference checker written from the statement.",
+        "Every combination of 28 specifications (types, type sets, example values including the falsy ones 0, '', 0.0, False, sets of example values, column specs, two-column specs), 26 values (scalars; Pandas and Polars frames that conform, have a wrong type, nulls, only nulls, a missing or extra column, no rows; non-frames), the call shapes (positional, keyword, omitted; second declared argument), return specifications and the global switch is executed on a freshly decorated function and compared with a reference checker written from the statement.",
         "Reference checker in mc/props/c22.py (Python isinstance semantics; a null scalar against a non-None spec is left unspecified).",
         "DESIGN.md 3/C22",
     ),
     "C23": (
         "model_checking",
         "exhaustive enumeration of all edge lists up to a length bound against a union-find reference",
-        "All edge lists of length <= 4 (thorough 6) over 4 vertices, for int, str and mixed int/float vertices, are labelled by the real function and by a union-find reference (label = least vertex of the component); plus all edge lists of length <= 3 (4) over 3 vertices through extend({'c': 'connected_components(f, g)'}) and f.co_equalizer(g) on Pandas.",
+        "All edge lists of length <= 4 (thorough 6) over 4 vertices, for int, str and mixed int/float vertices, are labelled by the real function and by a union-find reference (label = least vertex of the component); plus, by symmetry reduction, all forest-building edge lists (every edge joins two different components) of 3..7 edges over <= 8 vertices up to vertex renaming, under the ascending and the descending labelling by first appearance (about 4.4 million lists); plus all edge lists of length <= 3 (4) over 3 vertices, for the same three vertex types, through extend({'c': 'connected_components(f, g)'}) and f.co_equalizer(g) on Pandas.",
         "Union-find reference in mc/props/c23.py. Vertices are totally ordered within a list.",
         "DESIGN.md 3/C23",
     ),
     "C25": (
         "model_checking",
         "all pairs of a complete small frame family (key injectivity) + explicit-state BFS over store/get/mutate histories of the real ResultCache with a dict reference model",
-        "(i) every pair of frames from the complete family (<= 1 row quick / 2 rows thorough, 1-2 columns, int/float/str/bool) must get different keys whenever they differ in a value, a column name, the shape or the row order; (ii) all histories of length <= 3 (4) over 37 events (store/get over 2 dialects x 2 SQL texts x 3 data maps incl. a row permutation and a one-cell change x 2 results; mutate the last returned copy) are replayed on a fresh cache against a dict keyed by (dialect, sql, data map), with a full sweep of every key after each history.",
+        "(i) every pair of frames from the complete family (<= 1 row quick / 2 rows thorough, 1-2 columns, int/float/str/bool) must get different keys whenever they differ in a value, a column name, the shape or the row order; (ii) all histories of length <= 3 (4) over 37 events (store/get over 2 dialects x 2 SQL texts x 3 data maps incl. a row permutation and a one-cell change x 2 results; mutate the last returned copy) are replayed on a fresh cache against a dict keyed by (dialect, sql, data map), with a full sweep of every key after each history; a further family of histories of length <= 4 (5) uses one caller-owned frame object that an 'edit' event changes in place between the contents of two fresh frames, so keys must follow contents and not object identity.",
         "Value difference is Python inequality (1 == 1.0 == True).",
         "DESIGN.md 3/C25",
     ),
@@ -157,7 +157,7 @@ CHECKS["C27"] = (
 CHECKS["C04"] = (
     "model_checking",
     "explicit-state BFS over the real pipeline builder on a shared-sub-DAG slice x the product of SQL option settings x two dialect texts x exhaustive small inputs; metamorphic oracle (every option setting returns the default setting's table on the same engine)",
-    "Every state at depth <= 3 of a DAG slice (quick: a thinner menu; thorough: the rich menu) - plain, windowed and ordered extends creating / reading / overwriting each other's columns (the SQL-level extend merge), literal-bearing extends, selections and projections, and joins / concatenations whose right side is the state's own earlier prefix as the same object and as an equal rebuilt copy - is translated under every combination of use_with x use_cte_elim x annotate x extend merging (quick: 16 settings, plus four settings that vary initial_commas and the indent string; thorough: x initial_commas x three indent strings, 96 settings) for the SQLite dialect and for the PostgreSQL dialect; every distinct text is executed on the SQLite engine on all multisets of <= 2 rows and must return the default setting's table; no setting may fail to translate or execute when the default succeeds.",
+    "Every state at depth <= 3 of a DAG slice (quick: a thinner menu; thorough: the rich menu) - plain, windowed and ordered extends creating / reading / overwriting each other's columns (the SQL-level extend merge), literal-bearing extends, selections and projections, joins / concatenations whose right side is the state's own earlier prefix as the same object and as an equal rebuilt copy, and the state's last selection / limit step applied once more to a different source (the state two steps back) and stacked under the state - is translated under every combination of use_with x use_cte_elim x annotate x extend merging (quick: 16 settings, plus four settings that vary initial_commas and the indent string; thorough: x initial_commas x three indent strings, 96 settings) for the SQLite dialect and for the PostgreSQL dialect; every distinct text is executed on the SQLite engine on all multisets of <= 2 rows and must return the default setting's table; no setting may fail to translate or execute when the default succeeds.",
     "PostgreSQL-dialect text is executed on the SQLite engine (the only way CTE elimination can be executed here; it is not a PostgreSQL server); all variants of a dialect run on the same engine so engine semantics cancel. No reference model.",
     "DESIGN.md 3/C04",
 )
@@ -188,14 +188,14 @@ CHECKS["C14"] = (
 CHECKS["C17"] = (
     "model_checking",
     "exhaustive enumeration of a bounded family of strict record specifications x all small conforming tables x both directions x Pandas and Polars; inverse round trip, reference pivot / un-pivot, composition law over all composable pairs",
-    "48 (thorough 96) strict record specifications (1-2 control-table key columns, 2-3 block rows, 1-2 value columns, record keys [], [g], [g,h], two cell-name arrangements; thorough: also key columns listed after value columns) x every record-keyed table with <= 2 (3) records whose cells follow the patterns all-null / constant / all-distinct / one-null: rows->blocks must equal the reference un-pivot, inverse() must undo it, blocks->rows must return the original rows and its inverse() the blocks, on Pandas and on Polars (which must agree; a Polars exception on a valid layout is reported); for all composable pairs of maps over the same record keys and cell names, a >> b and b.compose(a) must equal applying a then b.",
+    "66 (thorough 120) strict record specifications (1-2 control-table key columns, 2-3 block rows, 1-2 value columns, record keys [], [g], [g,h], two cell-name arrangements; key columns leading the control table, listed after the value columns, and between two value columns - quick takes the latter two for the two-row contiguous layouts only) x every record-keyed table with <= 2 (3) records whose cells follow the patterns all-null / constant / all-distinct / one-null: rows->blocks must equal the reference un-pivot, inverse() must undo it, blocks->rows must return the original rows and its inverse() the blocks, on Pandas and on Polars (which must agree; a Polars exception on a valid layout is reported); for all composable pairs of maps over the same record keys and cell names, a >> b and b.compose(a) must equal applying a then b.",
     "Reference pivot / un-pivot in mc/refmodel.py; row order of results is not compared.",
     "DESIGN.md 3/C17",
 )
 CHECKS["C21"] = (
     "model_checking",
     "exhaustive enumeration of all valid small inputs per solution helper, each helper pipeline evaluated on Pandas and SQLite against an independent reference computation",
-    "rank_to_average: all multisets of <= 4 (thorough 5) rows over partition {a,b} x value {1,2,3}, with and without partition_by, against the mean 1-based position of the tie group; last_observed_carried_forward: all tables of <= 4 (5) rows over 5 distinct (partition, time) keys x values {NULL,1,2}, with and without partition_by, against a scan; replicate_rows_query: max_count 1..16 (1..64) x every count 1..max_count on one- and two-row tables (and the empty table), against explicit replication numbered from 0; def_multi_column_map: all 81 mapping tables over a 2x2 (column, value) grid x keyed tables with mapped, unmapped and missing values x coalesce_value {None, 0} x cols_to_map_back {None, renamed}, against dictionary lookup; each on Pandas and on SQLite.",
+    "rank_to_average: all multisets of <= 4 (thorough 5) rows over partition {a,b} x value {1,2,3}, with and without partition_by, against the mean 1-based position of the tie group; last_observed_carried_forward: all tables of <= 4 (5) rows over 5 distinct (partition, time) keys x values {NULL,1,2}, plus all such tables over repeated (partition, time) keys whose result is the same under every tie-breaking order, with and without partition_by, against a scan; replicate_rows_query: max_count 1..16 (1..64) x every count 1..max_count on one- and two-row tables (and the empty table), against explicit replication numbered from 0; def_multi_column_map: all 81 mapping tables over a 2x2 (column, value) grid x keyed tables with mapped, unmapped and missing values x coalesce_value {None, 0} x cols_to_map_back {None, renamed}, against dictionary lookup; each on Pandas and on SQLite.",
     "Reference computations in mc/props/c21.py are written from the helper docstrings.",
     "DESIGN.md 3/C21",
 )
